@@ -182,7 +182,7 @@ def has_bad_types(v):
 
 
 def run(ctx):
-    n = 60 if ctx.tier == "quick" else 1500
+    n = ctx.n(60, 1500)
     rng = core.Rng(ctx.seed)
     fmts, _ = hist.formats_from_source()
     contents = [gen_content(rng.fork("c%d" % i)) for i in range(n)]
@@ -262,7 +262,7 @@ def run(ctx):
                                    "why": "%s (anchors/merge keys resp. tables/dotted keys) does not evaluate to its expanded form: rc=%d %s %s" % (fn, rc, err[-200:], hist.short(got)),
                                    "class": "c04-format-dependence"})
     # generated anchors / merge keys
-    ycases = yaml_merge_cases(rng.fork("ymerge"), 40 if ctx.tier == "quick" else 600)
+    ycases = yaml_merge_cases(rng.fork("ymerge"), ctx.n(40, 600))
     for yi, (text, tree) in enumerate(ycases):
         fn = "ym%d.yaml" % yi
         open(os.path.join(d, fn), "w").write(text)
@@ -275,7 +275,7 @@ def run(ctx):
                                    "why": "YAML with anchors/merge keys does not evaluate to its expanded form: rc=%d %s got %s want %s" % (rc, err[-150:], hist.short(got), hist.short([tree])),
                                    "yaml": text, "class": "c04-format-dependence"})
     # every standard spelling of a YAML document boundary denotes the same stream
-    scases = yaml_stream_spellings(rng.fork("ystream"), 60 if ctx.tier == "quick" else 1500)
+    scases = yaml_stream_spellings(rng.fork("ystream"), ctx.n(60, 1500))
     for si, (name, text, docs) in enumerate(scases):
         open(os.path.join(d, "ys%d.yaml" % si), "wb").write(text.encode("utf-8"))
     sres = core.pmap(lambda si: core.cli(os.path.join(ctx.bindir, "bkl"), ["-f", "json", "ys%d.yaml" % si], d), range(len(scases)))
@@ -293,7 +293,7 @@ def run(ctx):
                                    "why": "a YAML stream of %d documents (boundary spelling: %s) does not evaluate to those documents: rc=%d %s got %s; PyYAML reads %s"
                                           % (len(docs), name, rc, err[-150:], hist.short(got), hist.short(ref)),
                                    "yaml": text, "boundary": name, "class": "c04-yaml-stream-boundary"})
-    ny = ynode_pass(ctx, rng.fork("ynodes"), 150 if ctx.tier == "quick" else 4000, dist)
+    ny = ynode_pass(ctx, rng.fork("ynodes"), ctx.n(150, 4000), dist)
     return {"evaluations": len(jobs) * 2 + len(ycases) + len(scases) + ny, "distinct_nontrivial": nt, "rule": RULE, "samples": [core.to_jsonable(c) for c in contents[:1]],
             "distribution": dist, "disagreements_checked": len(ctx.violations)}
 
